@@ -96,6 +96,11 @@ Proof.
   destruct (hstack_list_ok R (fst r) (snd r) Hf Ps Ws) as (P1 & W1 & _). split; [exact P1|split; [exact W1|exact Hd]].
 Qed.
 Print Assumptions C04_block_matrix_any_size.
+(* .gram of a block column is the sum of the blocks' grams: [A; B]^H [A; B] = A^H A + B^H B *)
+Theorem C04_block_column_gram : forall (R : StarRing) (A B : linop R), wf A -> wf B -> dom A = dom B ->
+  opeq (comp (adjop (vstack A B)) (vstack A B)) (lsum (comp (adjop A) A) (comp (adjop B) B)).
+Proof. exact gram_vstack. Qed.
+Print Assumptions C04_block_column_gram.
 (* LinearOperatorMatrix.from_diagonal: the block-diagonal operator equals the matrix with zero operators off the diagonal *)
 Theorem C04_block_diagonal : forall (R : StarRing) (A B : linop R),
   opeq (bdiag A B) (vstack (hstack A (zeroop (R:=R) (dom B) (ran A))) (hstack (zeroop (R:=R) (dom A) (ran B)) B)).
